@@ -102,4 +102,45 @@ theorem grouped_adjacent_form (T : Table) (hT : VaxisModel.Lemmas.ParserRunFine.
       (readNorm_adj T ls none f0 ⟨r, h, hend1⟩)).1
   · exact cbNorm_adj T hT _ none f0 hinv (fun _ h => by cases h) ⟨r, h1, hend2⟩
 
+/-- **Every schedule of single statements is, up to a result-preserving permutation, a schedule of
+    harness labels.**  `TimerOk` table, start state meeting `FInv` with the main goroutine not between a
+    read return and its `Stop()`, a schedule that runs to `r` and does not end inside a group: there
+    are a permutation `ls'` of the schedule with the same result in which the statements of every
+    harness label stand together, and a schedule `s` of harness labels (`SLabel`, Model/ParserRunSched.lean;
+    `s = toS T false f0 ls'`) with `srun T f0 s = some r` — same final state, same items.  So the forced
+    schedules the harness replays (and `enumerate` enumerates, up to its two commuting reductions:
+    `joint_normal_form`) lose no behaviour of the statement-grained system. -/
+theorem grouped_is_harness_schedule (T : Table) (hT : VaxisModel.Lemmas.ParserRunFine.TimerOk T) (f0 : FSys)
+    (hinv : VaxisModel.Lemmas.ParserRunFine.FInv f0) (h0 : ∀ i, f0.mpc ≠ .readDone i) (ls : List FLabel)
+    (r : FSys × List Seq) (h : FSys.run T f0 ls = some r) (hend1 : ∀ i, r.1.mpc ≠ .readDone i)
+    (hend2 : ∀ c ∈ r.1.cbs, c.2 ≠ .failed ∧ c.2 ≠ .stSet) :
+    ∃ ls' s, FSys.run T f0 ls' = some r ∧ ls'.Perm ls ∧ readAdj ls' = true ∧ cbAdj T f0 ls' = true ∧
+      VaxisModel.Model.ParserRunSched.srun T f0 s = some r := by
+  obtain ⟨ls', h1, h2, h3, h4⟩ := grouped_adjacent_form T hT f0 hinv ls r h hend1 hend2
+  exact ⟨ls', toS T false f0 ls', h1, h2, h3, h4, by rw [toS_run T ls' f0 (by rw [h1]; rfl) h3 h4 h0]; exact h1⟩
+
+/-- … from the initial state, the parser's table, a complete schedule (`run` returned, every callback
+    goroutine returned): it is — up to a result-preserving permutation — a schedule of harness labels. -/
+theorem complete_schedule_is_harness_schedule (ls : List FLabel) (r : FSys × List Seq)
+    (h : FSys.run handTable FSys.init ls = some r) (hd : r.1.mpc = .done) (hg : ∀ c ∈ r.1.cbs, c.2 = .gone) :
+    ∃ s, VaxisModel.Model.ParserRunSched.srun handTable FSys.init s = some r := by
+  obtain ⟨_, s, _, _, _, _, hs⟩ := grouped_is_harness_schedule handTable VaxisModel.Lemmas.ParserRunFine.handTable_timerOk
+    FSys.init VaxisModel.Lemmas.ParserRunFine.FInv_init (fun i h => by cases h) ls r h
+    (fun i hi => by rw [hd] at hi; cases hi) (fun c hc => by rw [hg c hc]; exact ⟨by decide, by decide⟩)
+  exact ⟨s, hs⟩
+
+-- non-vacuity: the grouped schedule of the callback example above is the expansion of 15 harness labels
+-- (`read ESC`, …, `cb 0` = Lock, `main`, `cb 0` = failed check + deferred Unlock), with the same result.
+example :
+    toS handTable false FSys.init [.main, .readRet (.rune 0x1B), .main, .main, .main, .main, .main, .expire, .main,
+       .readRet (.rune 0x41), .main, .main, .main, .main, .main, .cb 0, .main, .cb 0, .cb 0] =
+      [.main, .read (.rune 0x1B), .main, .main, .main, .main, .expire, .main, .read (.rune 0x41), .main, .main, .main,
+       .main, .cb 0, .main, .cb 0] ∧
+    VaxisModel.Model.ParserRunSched.srun handTable FSys.init
+      [.main, .read (.rune 0x1B), .main, .main, .main, .main, .expire, .main, .read (.rune 0x41), .main, .main, .main,
+       .main, .cb 0, .main, .cb 0] =
+    FSys.run handTable FSys.init [.main, .readRet (.rune 0x1B), .main, .main, .main, .main, .main, .expire, .main,
+       .readRet (.rune 0x41), .main, .main, .main, .main, .main, .cb 0, .main, .cb 0, .cb 0] := by
+  refine ⟨?_, ?_⟩ <;> decide +kernel
+
 end VaxisModel.Props.C08SchedGroup
